@@ -159,6 +159,7 @@ class Frame:
         self.ret_bb = None
         self.visits = {}
         self.cont = None      # optional post-processing of the return value (model-initiated calls)
+        self.int_generics = []  # integer const-generic arguments of this instantiation
 
 
 class State:
@@ -203,6 +204,8 @@ class Executor:
         self.overflow_checks = True
         self.by_last = {}
         for name, f in fns.items():
+            if "::vmap::" in name or name.startswith("vmap::"):
+                continue      # the Kani-only HashMap stub is not part of the code under analysis
             self.by_last.setdefault(name.split("::")[-1], []).append(f)
         from . import mirmodels
         self.models = mirmodels.MODELS
@@ -367,6 +370,27 @@ class Executor:
             return z3.FPVal(float(m.group(1)), z3.Float64())
         if t == "()":
             return Struct([])
+        # enum variant used as a constant:  Option::<T>::None,  Result::<..>::Err(x),  flaw::Flaw::Varint
+        mv = re.fullmatch(r"(.*?)(?:\((.*)\))?", t, re.S)
+        if mv and "::" in mv.group(1):
+            base = strip_generics(mv.group(1))
+            segs = split_path(base)
+            if len(segs) >= 2:
+                info = self.enum_info("::".join(segs[:-1]))
+                if info and segs[-1] in info["variants"]:
+                    fields = []
+                    if mv.group(2):
+                        for a in P.split_top(mv.group(2)):
+                            try:
+                                fields.append(self.parse_const(a.replace("const ", ""), st))
+                            except Unsupported:
+                                fields.append(Opaque("const", a))
+                    return Enum("::".join(segs[:-1]), info["variants"].index(segs[-1]), fields)
+        # a const generic parameter of the function being executed (MIR is not monomorphised)
+        if re.fullmatch(r"[A-Z][A-Z0-9_]*", t) and st is not None and st.frames and t not in self.consts:
+            g = st.frames[-1].int_generics
+            if len(g) == 1 and self.lookup_const_fn(t) is None:
+                return g[0]
         # promoteds belong to the function being executed
         m = re.search(r"::(promoted\[\d+\])$", t)
         if m and st is not None and st.frames:
@@ -636,7 +660,25 @@ class Executor:
                 # x & (2^k - 1)  ->  x mod 2^k
                 for x, c in ((a, b), (b, a)):
                     if is_conc(c) and c >= 0 and (c & (c + 1)) == 0:
-                        return zint(x) % (c + 1)
+                        return self.binop("Rem", x, c + 1, ty, ty, st) if ty[0] == "u" else zint(x) % (c + 1)
+                # x & mask for any concrete mask: sum over the mask's runs of one-bits of
+                # ((x >> lo) mod 2^len) << lo   (linear: div/mod by constants)
+                for x, c in ((a, b), (b, a)):
+                    if is_conc(c) and c >= 0 and ty[0] == "u":
+                        total, lo = z3.IntVal(0), 0
+                        m = int(c)
+                        while m >> lo:
+                            if (m >> lo) & 1:
+                                hi = lo
+                                while (m >> hi) & 1:
+                                    hi += 1
+                                part = self.binop("Div", x, 1 << lo, ty, ty, st) if lo else x
+                                part = self.binop("Rem", part, 1 << (hi - lo), ty, ty, st)
+                                total = total + zint(part) * (1 << lo)
+                                lo = hi
+                            else:
+                                lo += 1
+                        return z3.simplify(total)
             if base in ("BitOr", "BitXor") and ty[0] == "u":
                 # (hi << k) | lo with lo < 2^k is hi + lo: try the usual field widths
                 za, zb = zint(a), zint(b)
@@ -949,7 +991,8 @@ class Executor:
         if k == "array":
             return Struct([self.operand(fr, o, st) for o in rv[1]])
         if k == "repeat":
-            n = self.parse_const(rv[2].replace("const ", ""), st) if not rv[2].isdigit() else int(rv[2])
+            cnt = rv[2].replace("const ", "").strip()
+            n = int(cnt) if cnt.isdigit() else self.parse_const(cnt, st)
             v = self.operand(fr, rv[1], st)
             return Struct([copy.deepcopy(v) for _ in range(int(n))])
         if k == "discriminant":
@@ -1025,6 +1068,9 @@ class Executor:
         callee = self.resolve(func, argtys, dest_ty)
         if callee is not None:
             nf = Frame(callee)
+            tf = re.search(r"::<([^<>]*(?:<[^<>]*>[^<>]*)*)>$", func.strip())
+            if tf:
+                nf.int_generics = [int(x) for x in P.split_top(tf.group(1)) if re.fullmatch(r"\d+", x.strip())]
             if len(args) != len(callee.params):
                 raise Unsupported("arity mismatch calling %s" % callee.name)
             for (pl, pt), a in zip(callee.params, args):
@@ -1160,21 +1206,20 @@ class Executor:
             else:
                 segs = split_path(f)
                 csegs = split_path(c.name)
-                if len(segs) != len(csegs):
-                    continue
-                ok = True
-                for a, b in zip(segs, csegs):
-                    if a == b:
-                        continue
-                    if b.startswith("<impl at"):
-                        continue
-                    ok = False
-                    break
-                if not ok:
-                    continue
                 if not all(ty_compat(pt, at) for (_, pt), at in zip(c.params, argtys)):
                     continue
-                out.append(c)
+                if seg_match(segs, csegs):
+                    out.append(c)
+                    continue
+                # `Type::method` (trimmed path) vs `module::<impl at span>::method`: accept when the
+                # impl block's header in the source names that type
+                if len(segs) >= 2 and len(csegs) >= 2 and csegs[-2].startswith("<impl at"):
+                    try:
+                        hdr = self.source_span(*_span(csegs[-2]))
+                    except Exception:
+                        hdr = ""
+                    if re.search(r"\b%s\b" % re.escape(segs[-2].split("<")[0]), hdr):
+                        out.append(c)
         if len(out) == 1:
             return out[0]
         if len(out) > 1:
@@ -1201,6 +1246,11 @@ def seg_match(segs, fs):
             continue
         return False
     return True
+
+
+def _span(seg):
+    m = re.search(r"<impl at ([^:]+):(\d+):(\d+): (\d+):(\d+)>", seg)
+    return (m.group(1), int(m.group(2)), int(m.group(3)), int(m.group(4)), int(m.group(5)))
 
 
 def impl_type_of(fn, ex):
@@ -1268,7 +1318,8 @@ def path_matches(query, name):
 
 def norm_ty(t):
     t = re.sub(r"'\w+ ", "", t)
-    t = re.sub(r"\bstd::option::|\bstd::result::|\bcore::option::|\bcore::result::", "", t)
+    # module paths are printed inconsistently (trimmed vs. full): keep the last segment
+    t = re.sub(r"\b(?:[A-Za-z_]\w*::)+(?=[A-Za-z_])", "", t)
     return t.replace(" ", "")
 
 
@@ -1285,7 +1336,7 @@ def ty_compat(param_ty, arg_ty):
         if re.fullmatch(rx, b):
             return True
     # generic params / impl Trait / closures: be permissive
-    if re.fullmatch(r"[A-Z]\w*|impl.*", a):
+    if re.fullmatch(r"&?(mut)?([A-Z]\d?|__\w+|impl.*)", a):
         return True
     return False
 
